@@ -243,6 +243,8 @@ package val
 //@ pure numSrc(v interface{}) bool = dyn(v) == int8 || dyn(v) == uint8 || dyn(v) == int16 || dyn(v) == uint16 || dyn(v) == int32 || dyn(v) == uint32 \
 //@      || dyn(v) == int64 || dyn(v) == uint64 || dyn(v) == int || dyn(v) == uint || dyn(v) == float32 || dyn(v) == float64 || dyn(v) == string
 
+//@ pure convSrc(v interface{}) bool = numSrc(v) || dyn(v) == bool
+
 // denotesInt(r, v): the mathematical integer r is exactly the number the source value v denotes
 //@ pure denotesInt(r int, v interface{}) bool = \
 //@      (dyn(v) == int8 ==> r == v.(int8)) && (dyn(v) == uint8 ==> r == v.(uint8)) && (dyn(v) == int16 ==> r == v.(int16)) && (dyn(v) == uint16 ==> r == v.(uint16)) \
@@ -254,49 +256,49 @@ package val
 //@ func toInt8(val interface{}) (int8, error)
 //@   mode bv
 //@   property C10
-//@   requires numSrc(val)
+//@   requires convSrc(val)
 //@   ensures result1 == nil ==> denotesInt(result0, val)
 
 //@ func toUInt8(val interface{}) (uint8, error)
 //@   mode bv
 //@   property C10
-//@   requires numSrc(val)
+//@   requires convSrc(val)
 //@   ensures result1 == nil ==> denotesInt(result0, val)
 
 //@ func toInt16(val interface{}) (int16, error)
 //@   mode bv
 //@   property C10
-//@   requires numSrc(val)
+//@   requires convSrc(val)
 //@   ensures result1 == nil ==> denotesInt(result0, val)
 
 //@ func toUInt16(val interface{}) (uint16, error)
 //@   mode bv
 //@   property C10
-//@   requires numSrc(val)
+//@   requires convSrc(val)
 //@   ensures result1 == nil ==> denotesInt(result0, val)
 
 //@ func toInt32(val interface{}) (n int32, err error)
 //@   mode bv
 //@   property C10
-//@   requires numSrc(val)
+//@   requires convSrc(val)
 //@   ensures err == nil ==> denotesInt(n, val)
 
 //@ func toUInt32(val interface{}) (uint32, error)
 //@   mode bv
 //@   property C10
-//@   requires numSrc(val)
+//@   requires convSrc(val)
 //@   ensures result1 == nil ==> denotesInt(result0, val)
 
 //@ func toInt64(val interface{}) (n int64, err error)
 //@   mode bv
 //@   property C10
-//@   requires numSrc(val)
+//@   requires convSrc(val)
 //@   ensures err == nil ==> denotesInt(n, val)
 
 //@ func toUInt64(val interface{}) (uint64, error)
 //@   mode bv
 //@   property C10
-//@   requires numSrc(val)
+//@   requires convSrc(val)
 //@   ensures result1 == nil ==> denotesInt(result0, val)
 
 //@ pure denotesFloat(r float64, v interface{}) bool = \
@@ -309,13 +311,29 @@ package val
 //@ func toDecimal64(val interface{}) (float64, error)
 //@   mode bv
 //@   property C10
-//@   requires numSrc(val)
+//@   requires convSrc(val)
 //@   ensures result1 == nil ==> denotesFloat(result0, val)
 
 //@ func toBool(val interface{}) (bool, error)
 //@   mode bv
 //@   property C10
-//@   requires dyn(val) == bool || dyn(val) == string
+//@   requires convSrc(val)
 //@   ensures result1 == nil && dyn(val) == bool ==> result0 == val.(bool)
 //@   ensures result1 == nil && dyn(val) == string && result0 ==> (val.(string) == "1" || val.(string) == "true" || val.(string) == "yes")
 //@   ensures result1 == nil && dyn(val) == string && !result0 ==> (val.(string) == "0" || val.(string) == "false" || val.(string) == "np")
+
+//@ func Conv(f Format, val interface{}) (Value, error)
+//@   mode bv
+//@   property C10
+//@   requires val != nil ==> convSrc(val)
+//@   ensures val == nil ==> result0 == nil
+//@   ensures val != nil && result1 == nil && f == FmtInt8 ==> dyn(result0) == Int8 && denotesInt(result0.(Int8), val)
+//@   ensures val != nil && result1 == nil && f == FmtUInt8 ==> dyn(result0) == UInt8 && denotesInt(result0.(UInt8), val)
+//@   ensures val != nil && result1 == nil && f == FmtInt16 ==> dyn(result0) == Int16 && denotesInt(result0.(Int16), val)
+//@   ensures val != nil && result1 == nil && f == FmtUInt16 ==> dyn(result0) == UInt16 && denotesInt(result0.(UInt16), val)
+//@   ensures val != nil && result1 == nil && f == FmtInt32 ==> dyn(result0) == Int32 && denotesInt(result0.(Int32), val)
+//@   ensures val != nil && result1 == nil && f == FmtUInt32 ==> dyn(result0) == UInt32 && denotesInt(result0.(UInt32), val)
+//@   ensures val != nil && result1 == nil && f == FmtInt64 ==> dyn(result0) == Int64 && denotesInt(result0.(Int64), val)
+//@   ensures val != nil && result1 == nil && f == FmtUInt64 ==> dyn(result0) == UInt64 && denotesInt(result0.(UInt64), val)
+//@   ensures val != nil && result1 == nil && f == FmtDecimal64 ==> dyn(result0) == Decimal64 && denotesFloat(result0.(Decimal64), val)
+//@   ensures val != nil && result1 == nil && f == FmtBool ==> dyn(result0) == Bool && (dyn(val) == bool ==> result0.(Bool) == val.(bool))
